@@ -447,11 +447,54 @@ def r28e(ctx, run):
         raise LookupError("bare global names turned into qualified names with a known home: %d" % n)
 
 
+def r28f(ctx, run):
+    """the inference context looks at ONE file at a time: `self.loc` (whose type tables are read) and `self.bodies` (whose expression nodes are read) name
+    the same file.  Wherever a method of GlobalInferenceCtx switches `self.loc` to a location that may lie in another file - to evaluate the definition
+    behind `file.name` - it switches `self.bodies` to that file's bodies in the same block, and back.  Otherwise expression #n of the imported file's
+    definition is looked up among the expressions of the file being inferred: `other.Bar` silently resolves to whatever sits at that index."""
+    G = "hir_ty/src/globals.rs"
+    sites = []
+    for f in ctx.syn.fns_in(G):
+        if f.body is None or f.in_test or not (f.impl_ty or "").startswith("GlobalInferenceCtx"):
+            continue
+        for blk in [x for x in walk(f.body) if x.get("k") == "block"]:
+            for st in blk["s"]:
+                # only statements of THIS block (not of nested blocks, which are visited on their own)
+                nodes = [st.get("init")] if st.get("k") == "local" else [st.get("e")]
+                for top in nodes:
+                    if not isinstance(top, dict):
+                        continue
+                    for n in walk(top):
+                        if n.get("k") == "block" and n is not top:
+                            break
+                        new = None
+                        if n.get("k") == "call" and canon(n["f"]).endswith("mem::replace") and len(n["a"]) == 2 and canon(n["a"][0]) == "&mut self.loc":
+                            new = n["a"][1]
+                        if n.get("k") == "assign" and canon(n["l"]) == "self.loc" and not canon(n["r"]).startswith("old_"):
+                            new = n["r"]
+                        if new is not None:
+                            sites.append((f, blk, st, new))
+    if not sites:
+        raise LookupError("no site switches self.loc in hir_ty/src/globals.rs")
+    for f, blk, st, new in sites:
+        text = canon(blk)
+        same_file = "self.loc.file()" in canon(new)
+        switches_bodies = any((x.get("k") == "call" and canon(x["f"]).endswith("mem::replace") and x["a"] and canon(x["a"][0]) == "&mut self.bodies" and "world_bodies[" in canon(x["a"][1]))
+                              or (x.get("k") == "assign" and canon(x["l"]) == "self.bodies" and "world_bodies[" in canon(x["r"])) for s2 in blk["s"] for x in walk(s2))
+        restores = any(x.get("k") == "assign" and canon(x["l"]) == "self.bodies" and canon(x["r"]).startswith("old_") for s2 in blk["s"] for x in walk(s2))
+        run.check(same_file or (switches_bodies and restores), f.site(st["ln"]), "%s switches self.loc to %s%s" % (f.qual, canon(new)[:30], " together with self.bodies" if switches_bodies else " (same file)"),
+                  f.qual, "loc-and-bodies", f.file, st["ln"],
+                  "%s switches self.loc to `%s` - a location that may lie in another file - %s: expression indices of that file's definition are then looked up in the bodies of the "
+                  "file being inferred, so `other.Bar` (an alias in an imported file) resolves to an unrelated expression of the importing file"
+                  % (f.qual, canon(new)[:40], "without switching self.bodies to that file's bodies" if not switches_bodies else "and does not put self.bodies back"))
+
+
 def rules(ctx):
     return [
         Rule("R28.a", "every import registration is preceded by its complete guard list; resolved paths are the checked ones", 12, r28a),
         Rule("R28.b", "hir::lower runs against the real file system in every non-test caller", 2, r28b),
         Rule("R28.d", "path containment (import outside the module and the working directory) is decided component by component", 1, r28d),
         Rule("R28.e", "`file.name` refers to that file's own definition: a bare global name is qualified with the file its node was fetched from", 4, r28e),
+        Rule("R28.f", "the inference context's location and bodies name one file: a switch of self.loc to another file's definition switches self.bodies with it", 1, r28f),
         Rule("R28.c", "each file is parsed once: seen-test dominates parse in the worklist; stored under its own key; worklist fed and drained", 5, r28c),
     ]
